@@ -6,6 +6,8 @@ import itertools
 import os
 import termios
 
+import pexpect
+
 from mc import env as E
 from mc import transports as TR
 from mc.explore import Chooser, Cut, dfs
@@ -103,7 +105,8 @@ def run_seq(task, seq, mode, big=False, ch=None, payload=None):
         if big and link.sock is not None:
             # a socket with its own timeout set (not plain blocking): a single send() may then be partial
             link.sock._s.settimeout(30.0)
-        drain = TR.Drain(link) if big else None
+            link.sock.settimeout(30.0)
+        drain = TR.Drain(link, delay=0.15 if any(o[0] == 'rtimeout' for o in seq) else 0) if big else None
         pl = dict(payloads(mode)) if not big else {}
         nbig = BIG if task['transport'] in ('socket', 'fd-select', 'fd-poll') else BIG // 3
         pl['big'] = (bytes((i * 7 + 3) % 251 for i in range(nbig)) if mode == 'bytes'
@@ -156,6 +159,17 @@ def run_seq(task, seq, mode, big=False, ch=None, payload=None):
             elif k == 'sendintr':
                 sp.sendintr()
                 want += vintr
+            elif k == 'rtimeout':
+                # a read that ends in TIMEOUT (the peer has sent nothing) before the next send: whatever the
+                # failed read did to the transport (a socket's timeout, a descriptor's blocking mode) must be undone
+                try:
+                    # (PopenSpawn reports "nothing yet" as an empty string rather than TIMEOUT)
+                    r = sp.read_nonblocking(1, timeout=op[1])
+                    if r:
+                        viol = ('phantom-read', 'read_nonblocking returned %r although the peer never wrote' % (r,))
+                        break
+                except pexpect.TIMEOUT:
+                    pass
         if drain and viol is None:
             got = drain.finish()
         elif drain:
@@ -287,7 +301,8 @@ def run_task(task):
                                       dict(task=task, seq=[list(o) for o in seq], mode=mode, size=n))
     elif task['kind'] == 'big':
         for mode in ('bytes', 'utf-8'):
-            for seq in ([('send', 'big')], [('sendline', 'big')], [('send', 'big'), ('send', 'big')]):
+            for seq in ([('send', 'big')], [('sendline', 'big')], [('send', 'big'), ('send', 'big')],
+                        [('rtimeout', 0), ('send', 'big')], [('rtimeout', 0.05), ('send', 'big')]):
                 if task['transport'] in ('fd-select', 'fd-poll', 'socket') and mode == 'bytes' and False:
                     continue
                 obs, viol = run_seq(dict(task, mode=mode), seq, mode, big=True)
